@@ -160,8 +160,9 @@ fn in_const_expr(lx: &[(String, String)], i: usize) -> bool {
             "}" => depth += 1,
             "{" => {
                 depth -= 1;
-                if depth < -1 {
-                    return false;
+                if depth < 0 {
+                    // leaving the enclosing block: it is a constant expression only if it is `const {`
+                    return k > 0 && lx[k - 1].1 == "const";
                 }
             }
             _ => {}
